@@ -17,11 +17,11 @@ type Finding struct {
 
 // Stats summarises what a history contained.
 type Stats struct {
-	Sets, Gets, Hits, Misses, GetErrors, SetErrors int
-	URLs                                         int
+	Sets, Gets, Hits, Misses, GetErrors, SetErrors  int
+	URLs                                            int
 	PorcupineOK, PorcupineIllegal, PorcupineUnknown int
-	FreshnessObligations                         int64
-	PorcupineSkipped                             int
+	FreshnessObligations                            int64
+	PorcupineSkipped                                int
 }
 
 // MaxPorcupineOps bounds the size of a per-URL partition handed to porcupine (0 = no bound).
